@@ -107,6 +107,8 @@ class Folder:
                 return v
             if isinstance(v, EnumVal) and isinstance(v.value, int):
                 return v.value
+            if isinstance(v, (str, bytes)) and len(v) <= 64:
+                return v
             raise KeyError(name)
 
         return f
